@@ -103,6 +103,26 @@ func c20RunOnce(p c20Plan) (f *common.Fail, inconclusive string) {
 		f, inconclusive = c20Describe(p, timeout, margin)
 	case "discover":
 		f, inconclusive = c20Discover(p, timeout, margin)
+	case "discover-port0":
+		// a call that fails (or finds nothing) after its socket was opened: a discovery address with port 0. Whatever it
+		// returns, it returns in time and releases the socket - the checks below
+		probeMulticast()
+		if !mcastOK {
+			return nil, "no multicast"
+		}
+		k := int(atomic.AddInt32(&confSeq, 1))
+		t0 := time.Now()
+		func() {
+			defer func() {
+				if r := recover(); r != nil {
+					f = common.Failf("panic", "Discover on a port-0 address panics: %v", r)
+				}
+			}()
+			knx.Discover(fmt.Sprintf("239.254.%d.%d:0", 1+os.Getpid()%250, 1+k%250), timeout)
+		}()
+		if el := time.Since(t0); f == nil && el > timeout+time.Second {
+			f = common.Failf("returned-late", "Discover on a port-0 address returned after %v, the timeout is %v", el, timeout)
+		}
 	}
 	if f != nil {
 		return
@@ -398,7 +418,7 @@ func c20Discover(p c20Plan, timeout, margin time.Duration) (*common.Fail, string
 	}
 	k := int(atomic.AddInt32(&c20Seq, 1))
 	shard := os.Getpid()
-	grp := &net.UDPAddr{IP: net.IPv4(239, 255, byte(1+shard%250), byte(1+k%250)), Port: 20000 + (shard*131+k)%30000}
+	grp := mcastAddr(255, shard, k)
 	n := p.Responders
 	if n < 1 {
 		n = 1
@@ -524,9 +544,9 @@ func genMatch(rt *rapid.T, call string) string {
 }
 
 func genPlanC20(rt *rapid.T) c20Plan {
-	p := c20Plan{Call: rapid.SampledFrom([]string{"describe", "describe", "discover", "discover", "describe-nolistener"}).Draw(rt, "call")}
+	p := c20Plan{Call: rapid.SampledFrom([]string{"describe", "describe", "describe", "describe", "discover", "discover", "discover", "discover", "describe-nolistener", "describe-nolistener", "discover-port0"}).Draw(rt, "call")}
 	p.TimeoutUs = rapid.SampledFrom([]int{1000, 5000, 20000, 60000, 150000, 300000, 500000}).Draw(rt, "timeout")
-	if p.Call == "describe-nolistener" {
+	if p.Call == "describe-nolistener" || p.Call == "discover-port0" {
 		return p
 	}
 	other := "searchres"
@@ -608,6 +628,12 @@ func genPlanC20(rt *rapid.T) c20Plan {
 			f := common.GenFrame(rt, map[bool]string{true: "searchres", false: "descrres"}[p.Call == "discover"], "ldata-ind-app")
 			b, lens := common.RefEncode(f)
 			st.Hex = hex.EncodeToString(mutateFrame(rt, b, lens, false))
+			if rapid.IntRange(0, 3).Draw(rt, "runt") == 0 {
+				// a datagram shorter than a header, down to the empty one
+				if n := 2 * rapid.SampledFrom([]int{0, 0, 1, 5}).Draw(rt, "runt-len"); n < len(st.Hex) {
+					st.Hex = st.Hex[:n]
+				}
+			}
 			var s knxnet.Service
 			if _, err := knxnet.Unpack(unhex(st.Hex), &s); err == nil {
 				if (p.Call == "discover" && s.Service() == knxnet.SearchResService) || (p.Call != "discover" && s.Service() == knxnet.DescrResService) {
